@@ -888,7 +888,9 @@ func g10Discovery(r *Repo, rep *Report) {
 			if neg {
 				derivedSucc = b.Succs[1]
 			}
-			reach := g.reachable([]*cfg.Block{derivedSucc}, func(x *cfg.Block) bool { return x.Kind == cfg.KindRangeLoop || x.Kind == cfg.KindForLoop || x.Kind == cfg.KindForPost })
+			reach := g.reachable([]*cfg.Block{derivedSucc}, func(x *cfg.Block) bool {
+				return x.Kind == cfg.KindRangeLoop || x.Kind == cfg.KindForLoop || x.Kind == cfg.KindForPost
+			})
 			allDom, anyReach := true, false
 			for _, t := range targets {
 				if !g.dominates(b, t) {
